@@ -5,6 +5,7 @@ import (
 	"github.com/brewlin/net-protocol/pkg/waiter"
 	tcpip "github.com/brewlin/net-protocol/protocol"
 	"github.com/brewlin/net-protocol/protocol/header"
+	"github.com/brewlin/net-protocol/protocol/network/ipv4"
 	"github.com/brewlin/net-protocol/stack"
 )
 
@@ -85,7 +86,8 @@ func vhArb(name string, maxLen int) vhDgram {
 
 // O1/O3: one arrival on an arbitrary queue
 func vh_udp_arrival() {
-	u := vhEP(vparam("bufmax", 6))
+	// the limit is small and varies so that the queue can be exactly full, one short, or over
+	u := vhEP(1 + vnChoice("bufmax", vparam("bufmax", 6)))
 	e := u.e
 	q := vnChoice("queued", 3)
 	var want []vhDgram
@@ -143,7 +145,7 @@ func vh_udp_read() {
 	var want []vhDgram
 	for i := 0; i < k; i++ {
 		d := vhArb("d", 3)
-		u.vhInject(d, uint16(8+len(d.payload)), 0)
+		u.vhInject(d, uint16(8+len(d.payload)), 8+vnChoice("split", 3)) // payload in one or two views
 		want = append(want, d)
 	}
 	closed := vnBool("closed")
@@ -170,7 +172,7 @@ func vh_udp_read() {
 type vhBig int
 
 func (b vhBig) Get(n int) ([]byte, *tcpip.Error) { return nil, tcpip.ErrInvalidOptionValue }
-func (b vhBig) Size() int                         { return int(b) }
+func (b vhBig) Size() int                        { return int(b) }
 
 // O4: a write emits exactly one packet carrying exactly the bytes, or fails
 func vh_udp_write() {
@@ -292,5 +294,48 @@ func vh_udp_manyviews() {
 	vassert(len(q) == 1 && vhSame(q[0].payload, payload), "a datagram arriving in many views is queued whole, byte for byte")
 	v, _, err := u.e.Read(nil)
 	vassert(err == nil && vhSame(v, payload), "and read back whole")
+	vassert(u.e.rcvBufSize == 0, "reading it releases all of its bytes from the receive-buffer accounting")
 	vreach("manyviews")
+}
+
+// Bind/Connect registration: a connected socket receives only from its peer, whether or not
+// it was bound first, and only on its own port.
+func vh_udp_connect() {
+	s := stack.VHStack()
+	stack.VHAddProtocols(s, []stack.NetworkProtocol{ipv4.NewProtocol()}, []stack.TransportProtocol{&protocol{}})
+	link := &stack.VHLink{Mtu: 1500}
+	nic := stack.VHNIC(s, 1, link)
+	vassert(nic.AddAddress(header.IPv4ProtocolNumber, vhLocal) == nil, "address added")
+	s.SetRouteTable([]tcpip.Route{{Destination: "\x00\x00\x00\x00", Mask: "\x00\x00\x00\x00", NIC: 1}})
+	e := newEndpoint(s, header.IPv4ProtocolNumber, &waiter.Queue{})
+	switch vnChoice("bind", 3) {
+	case 1:
+		vassert(e.Bind(tcpip.FullAddress{Addr: vhLocal, Port: 53}, nil) == nil, "bind to an address of the interface")
+		vreach("bound")
+	case 2:
+		vassert(e.Bind(tcpip.FullAddress{Port: 53}, nil) == nil, "bind to the wildcard address")
+		vreach("bound-any")
+	}
+	vassert(e.Connect(tcpip.FullAddress{Addr: vhRemote, Port: 4000}) == nil, "connect")
+	lport := e.id.LocalPort
+	vassert(lport != 0, "a connected socket has a local port")
+	// a datagram from an arbitrary sender to an arbitrary local port
+	from := tcpip.Address(vnString("from", 4))
+	sport, dport := vnU16("sport"), vnU16("dport")
+	b := make([]byte, 9)
+	header.UDP(b).Encode(&header.UDPFields{SrcPort: sport, DstPort: dport, Length: 9})
+	b[8] = vnU8("payload")
+	r := stack.VHRoute(nic, &stack.VHNet{Mtu: 1480, Ttl: 64, Nic: 1}, header.IPv4ProtocolNumber, vhLocal, from, nil)
+	nic.DeliverTransportPacket(&r, ProtocolNumber, buffer.View(b).ToVectorisedView())
+	n := 0
+	for p := e.rcvList.Front(); p != nil; p = p.Next() {
+		n++
+	}
+	if from == vhRemote && sport == 4000 && dport == lport {
+		vassert(n == 1, "a datagram from the connected peer to the socket's port is received")
+		vreach("peer")
+	} else {
+		vassert(n == 0, "a connected socket receives nothing from other senders or on other ports")
+		vreach("other")
+	}
 }
